@@ -22,9 +22,11 @@
 
 #include <stdbool.h>
 
+#include <stddef.h>
+
 #include "cmi_mempool.h"
 
-#define cmi_offset_of(type, member) ((size_t)&(((type *)0)->member))
+#define cmi_offset_of(type, member) offsetof(type, member)
 
 #define cmi_container_of(ptr, type, member) \
 ((type *)((char *)(ptr) - cmi_offset_of(type, member)))
